@@ -280,4 +280,646 @@ theorem checked_other {e : Ev} {t0 toi : Nat} (he : evAbout e = some t0) (hne : 
   | opRemove t ok => trivial
   | _ => simp [evAbout] at he
 
+/-- a primitive whose event is about object `t0`: all other objects are untouched -/
+theorem LifeInv.about {s s' : State} {L L' : Held} {e : Ev} {t0 : Nat} (h : LifeInv s L)
+    (he : evAbout e = some t0) (hlog : s'.log = e :: s.log)
+    (hobjs : ∀ toi, toi ≠ t0 → getF s'.objs toi = getF s.objs toi)
+    (hfiles : ∀ toi, toi ≠ t0 → (toi ∈ s'.files ↔ toi ∈ s.files))
+    (hqueue : ∀ toi, toi ≠ t0 → toi ∈ s.queue → toi ∈ s'.queue)
+    (hL : ∀ pc' ∈ L', pc'.2.key ≠ t0 → pc' ∈ L)
+    (hfn : s'.files.Nodup)
+    (hself : ∀ f', getF s'.objs t0 = some f' → ObjRel s' L' t0 f' (LM.run t0 s'.log))
+    (hselfNone : getF s'.objs t0 = none → LM.run t0 s'.log = {})
+    (hselfChk : LM.check t0 (LM.run t0 s.log) e)
+    (hfobj : t0 ∈ s'.files → ∃ f, getF s'.objs t0 = some f) : LifeInv s' L' where
+  rel := fun toi f' hf' => by
+    by_cases hne : toi = t0
+    · subst hne; exact hself f' hf'
+    · rw [hobjs toi hne] at hf'
+      rw [hlog, lrun_other he hne]
+      exact (h.rel toi f' hf').of_same (Core.refl f') (hfiles toi hne) (hqueue toi hne)
+        (fun pc hpc hk => hL pc hpc (by rw [hk]; exact hne))
+  unknown := fun toi hn => by
+    by_cases hne : toi = t0
+    · subst hne; exact hselfNone hn
+    · rw [hobjs toi hne] at hn
+      rw [hlog, lrun_other he hne]; exact h.unknown toi hn
+  checked := fun toi => by
+    rw [hlog]
+    by_cases hne : toi = t0
+    · subst hne; exact ⟨h.checked toi, hselfChk⟩
+    · exact checked_other he hne (h.checked toi)
+  filesObj := fun t ht => by
+    by_cases hne : t = t0
+    · subst hne; exact hfobj ht
+    · rw [hobjs t hne]; exact h.filesObj t ((hfiles t hne).mp ht)
+  filesNodup := hfn
+
+theorem nPk_pos (f : FileDesc) : 0 < f.nPk := by unfold FileDesc.nPk; split <;> omega
+
+theorem LifeInv.ofFileStartStep {s : State} {L : Held} {prio now t : Nat} (tk : Nat) (c : Cur)
+    (hck : c.key = t) (hc0 : c.enc.sent = 0) (hcs : c.enc.stopped = false)
+    (hw : Wf s L) (h : LifeInv s L) (hfn : findNext s prio now s.queue = some t) :
+    LifeInv (fileStartStep s t now tk) ((prio, c) :: L) := by
+  obtain ⟨pre, post, hq, _, g, hg, hst⟩ := findNext_spec s prio now s.queue t hfn
+  have htq : t ∈ s.queue := by rw [hq]; simp
+  have htf : t ∈ s.files := hw.queueFiles t htq
+  obtain ⟨_, hgt, _, _⟩ := shouldTransferNow_true hst
+  have hkey : ∀ f : FileDesc, (transferInit f now tk).key = f.key := fun _ => rfl
+  have hget : ∀ k, getF (fileStartStep s t now tk).objs k =
+      if k = t then (getF s.objs k).map (fun g => transferInit g now tk) else getF s.objs k :=
+    fun k => getF_updF _ _ _ _ hkey
+  have hne : ∀ pc ∈ L, pc.2.key ≠ t := by
+    intro pc hpc e
+    obtain ⟨g', hg', hgt', _⟩ := hw.heldObj pc hpc
+    rw [e, hg] at hg'; cases hg'
+    rw [hgt] at hgt'; cases hgt'
+  have r := h.rel t g hg
+  have hself : getF (fileStartStep s t now tk).objs t = some (transferInit g now tk) := by
+    rw [hget, if_pos rfl, hg]; rfl
+  have hrun : LM.run t (fileStartStep s t now tk).log =
+      { LM.run t s.log with active := true, sent := 0, starts := (LM.run t s.log).starts + 1 } := by
+    show LM.step t (LM.run t s.log) (Ev.start now t _ _) = _
+    simp [LM.step]
+  obtain ⟨a, ha1, ha2, ha3, ha4, ha5⟩ := r.args
+  have hrem : (LM.run t s.log).removed = none := (r.inFiles htf).1
+  refine h.about (e := Ev.start now t _ _) (t0 := t) rfl rfl
+    (fun toi hn => by rw [hget, if_neg hn])
+    (fun toi _ => Iff.rfl)
+    (fun toi hn hq' => (List.mem_erase_of_ne hn).mpr hq')
+    (fun pc' hpc' hk => by
+      rcases List.mem_cons.mp hpc' with rfl | hpc'
+      · exact absurd hck hk
+      · exact hpc')
+    h.filesNodup ?_ (fun hn => by rw [hself] at hn; cases hn) ?_ (fun _ => ⟨_, hself⟩)
+  · intro f' hf'
+    rw [hself] at hf'; cases hf'
+    rw [hrun]
+    exact
+    { args := ⟨a, ha1, ha2, ha3, ha4, ha5⟩
+      active := rfl
+      stops := r.stops
+      sent := fun pc hpc hk => by
+        rcases List.mem_cons.mp hpc with rfl | hpc
+        · exact ⟨hc0.symm, by rw [hc0]; exact Nat.zero_le _⟩
+        · exact absurd hk (hne pc hpc)
+      inFiles := fun _ => ⟨hrem, Or.inr rfl⟩
+      count := fun hcar => by
+        have hcar' : g.carousel = none := hcar
+        obtain ⟨h1, h2, h3⟩ := r.count hcar'
+        have : (transferInit g now tk).info.count = g.info.count := by
+          show (if g.info.count == g.maxCount && g.carousel.isSome then 0 else g.info.count) = _
+          rw [hcar']; simp
+        exact ⟨by rw [this]; exact h1, h2, fun _ => h3 (Or.inl htf)⟩
+      notStopped := fun pc hpc hk _ => by
+        rcases List.mem_cons.mp hpc with rfl | hpc
+        · exact hcs
+        · exact absurd hk (hne pc hpc)
+      removed := fun wa st hr => by
+        have : (LM.run t s.log).removed = some (wa, st) := hr
+        rw [hrem] at this; cases this
+      full := fun _ => by
+        have h1 := r.full (Or.inl hrem)
+        rw [hgt] at h1
+        simp only [Bool.false_eq_true, false_and, if_false, Nat.add_zero] at h1
+        show (LM.run t s.log).full = (LM.run t s.log).stops + (if _ ∧ 0 = (transferInit g now tk).nPk then 1 else 0)
+        have := nPk_pos (transferInit g now tk)
+        rw [if_neg (by omega), h1]; rfl
+      carousel := fun _ => Or.inl htf
+      after0 := r.after0
+      transFiles := fun _ _ => htf }
+  · -- the Start event passes the checks
+    intro _
+    refine ⟨by rw [r.active]; exact hgt, hrem, a, ha1, ?_⟩
+    intro hcar
+    rw [ha4] at hcar
+    rw [r.stops, burst_eq ha3]
+    exact (r.count hcar).2.2 (Or.inl htf)
+
+theorem LifeInv.ofFileStart' {s : State} {L : Held} {prio now t : Nat} (tk : Nat) (c : Cur)
+    (hck : c.key = t) (hc0 : c.enc.sent = 0) (hcs : c.enc.stopped = false)
+    (hw : Wf s L) (h : LifeInv s L) (hfn : findNext s prio now s.queue = some t) :
+    LifeInv (autoPublish (fileStartStep s t now tk) now) ((prio, c) :: L) := by
+  have h1 := LifeInv.ofFileStartStep tk c hck hc0 hcs hw h hfn
+  unfold autoPublish
+  split
+  · exact h1.ofPublish now
+  · exact h1
+
+theorem LifeInv.ofFileStart {s : State} {L : Held} {prio now t : Nat} (tk : Nat)
+    (hw : Wf s L) (h : LifeInv s L) (hfn : findNext s prio now s.queue = some t) :
+    LifeInv (autoPublish (fileStartStep s t now tk) now)
+      ((prio, startCur (autoPublish (fileStartStep s t now tk) now) t) :: L) :=
+  LifeInv.ofFileStart' tk _ rfl rfl rfl hw h hfn
+
+theorem encRead_eq (n : Nat) (e : Enc) (force : Bool) :
+    encRead n e force =
+      if e.stopped = true then (none, e) else
+      if e.sent < (if n = 0 then 1 else n) then
+        (some (e.sent, if n = 0 then true else (force || (e.closable && e.sent + 1 == n))),
+          { sent := e.sent + 1, stopped := force, closable := e.closable })
+      else (none, { sent := e.sent, stopped := force, closable := e.closable }) := by
+  unfold encRead
+  obtain ⟨sent, stopped, closable⟩ := e
+  cases stopped with
+  | true => simp
+  | false =>
+    simp only [Bool.false_eq_true, if_false]
+    by_cases hn : n = 0
+    · subst hn
+      by_cases h0 : sent = 0
+      · cases force <;> simp [h0]
+      · have : ¬ sent < 1 := by omega
+        cases force <;> simp [h0, this]
+    · by_cases hlt : sent < n
+      · cases force <;> simp [hn, hlt]
+      · cases force <;> simp [hn, hlt]
+
+theorem encRead_some {n : Nat} {e e' : Enc} {force : Bool} {idx : Nat} {b : Bool}
+    (h : encRead n e force = (some (idx, b), e')) :
+    e.stopped = false ∧ idx = e.sent ∧ e.sent < (if n = 0 then 1 else n) ∧ e'.sent = e.sent + 1 ∧
+    e'.stopped = force ∧ (force = true → b = true) := by
+  rw [encRead_eq] at h
+  by_cases hs : e.stopped = true
+  · rw [if_pos hs] at h; simp at h
+  · rw [if_neg hs] at h
+    by_cases hlt : e.sent < (if n = 0 then 1 else n)
+    · rw [if_pos hlt] at h
+      simp only [Prod.mk.injEq, Option.some.injEq] at h
+      obtain ⟨⟨h1, h2⟩, h3⟩ := h
+      refine ⟨by simpa using hs, h1.symm, hlt, by rw [← h3], by rw [← h3], ?_⟩
+      intro hf; subst hf
+      rw [← h2]; split <;> simp
+    · rw [if_neg hlt] at h; simp at h
+
+theorem encRead_none {n : Nat} {e e' : Enc} {force : Bool} (h : encRead n e force = (none, e')) :
+    e.stopped = true ∨ (if n = 0 then 1 else n) ≤ e.sent := by
+  rw [encRead_eq] at h
+  by_cases hs : e.stopped = true
+  · left; exact hs
+  · right
+    rw [if_neg hs] at h
+    by_cases hlt : e.sent < (if n = 0 then 1 else n)
+    · rw [if_pos hlt] at h; simp at h
+    · omega
+
+theorem tickInfo_core (f : FileDesc) : Core (tickInfo f) f := by
+  unfold tickInfo FileDesc.updInfo
+  simp only []
+  split <;> exact ⟨rfl, rfl, rfl, rfl, rfl, rfl, rfl⟩
+
+theorem LifeInv.ofPkt {s : State} {L : Held} {prio : Nat} {c : Cur} {f : FileDesc} {now idx : Nat} {b : Bool} {e : Enc}
+    (hw : Wf s ((prio, c) :: L)) (h : LifeInv s ((prio, c) :: L)) (hf : getF s.objs c.key = some f)
+    (he : encRead f.nSym c.enc (canStop f && !s.files.contains c.key) = (some (idx, b), e)) :
+    LifeInv (pktStep s prio c.key now idx b) ((prio, { c with enc := e }) :: L) := by
+  obtain ⟨e1, e2, e3, e4, e5, e6⟩ := encRead_some he
+  have e3' : c.enc.sent < f.nPk := e3
+  obtain ⟨f0, hf0, htr, _⟩ := hw.heldObj (prio, c) List.mem_cons_self
+  rw [hf] at hf0; cases hf0
+  have r := h.rel c.key f hf
+  obtain ⟨a, ha1, ha2, ha3, ha4, ha5⟩ := r.args
+  have hsent := (r.sent (prio, c) List.mem_cons_self rfl).1
+  have hnd := hw.heldNodup
+  simp only [List.map_cons, List.nodup_cons] at hnd
+  have hne : ∀ pc ∈ L, pc.2.key ≠ c.key := fun pc hpc e => hnd.1 (List.mem_map.mpr ⟨pc, hpc, e⟩)
+  have hkey : ∀ g : FileDesc, (tickInfo g).key = g.key := fun _ => rfl
+  have hget : ∀ k, getF (pktStep s prio c.key now idx b).objs k =
+      if k = c.key then (getF s.objs k).map tickInfo else getF s.objs k :=
+    fun k => getF_updF _ _ _ _ hkey
+  have hself : getF (pktStep s prio c.key now idx b).objs c.key = some (tickInfo f) := by
+    rw [hget, if_pos rfl, hf]; rfl
+  have hnpk : (LM.run c.key s.log).args.map npk = some f.nPk := by rw [ha1]; simp [npk_eq ha2]
+  have hrun : LM.run c.key (pktStep s prio c.key now idx b).log =
+      { LM.run c.key s.log with
+        sent := (LM.run c.key s.log).sent + 1
+        full := if f.nPk = (LM.run c.key s.log).sent + 1 then (LM.run c.key s.log).full + 1 else (LM.run c.key s.log).full
+        after := if (LM.run c.key s.log).removed.isSome then (LM.run c.key s.log).after + 1 else (LM.run c.key s.log).after } := by
+    show LM.step c.key (LM.run c.key s.log) (Ev.pkt now prio c.key idx b) = _
+    simp [LM.step, hnpk]
+  have hc := tickInfo_core f
+  -- the force flag
+  have hforce_in : c.key ∈ s.files → (canStop f && !s.files.contains c.key) = false := by
+    intro hin
+    have : s.files.contains c.key = true := by simpa using hin
+    rw [this]; simp
+  have hforce_out : c.key ∉ s.files → (canStop f && !s.files.contains c.key) = canStop f := by
+    intro hout
+    have : s.files.contains c.key = false := by simpa using hout
+    rw [this]; simp
+  refine h.about (e := Ev.pkt now prio c.key idx b) (t0 := c.key) rfl rfl
+    (fun toi hn => by rw [hget, if_neg hn])
+    (fun toi _ => Iff.rfl) (fun toi _ hq => hq)
+    (fun pc' hpc' hk => by
+      rcases List.mem_cons.mp hpc' with rfl | hpc'
+      · exact absurd rfl hk
+      · exact List.mem_cons_of_mem _ hpc')
+    h.filesNodup ?_ (fun hn => by rw [hself] at hn; cases hn) ?_ (fun _ => ⟨_, hself⟩)
+  · intro f' hf'
+    rw [hself] at hf'; cases hf'
+    rw [hrun]
+    exact
+    { args := ⟨a, ha1, by rw [hc.nSym]; exact ha2, by rw [hc.maxCount]; exact ha3,
+        by rw [hc.carousel]; exact ha4, by rw [hc.allowStop]; exact ha5⟩
+      active := by rw [hc.transferring]; exact r.active
+      stops := by rw [hc.total]; exact r.stops
+      sent := fun pc hpc hk => by
+        rcases List.mem_cons.mp hpc with rfl | hpc
+        · rw [hc.nPk]
+          show (LM.run c.key s.log).sent + 1 = e.sent ∧ e.sent ≤ f.nPk
+          rw [e4, hsent]; exact ⟨rfl, e3'⟩
+        · exact absurd hk (hne pc hpc)
+      inFiles := fun hin => by
+        obtain ⟨h1, h2⟩ := r.inFiles hin
+        exact ⟨h1, by rw [hc.transferring]; exact h2⟩
+      count := fun hcar => by
+        rw [hc.carousel] at hcar
+        rw [hc.count, hc.total, hc.burstF, hc.transferring]
+        exact r.count hcar
+      notStopped := fun pc hpc hk hin => by
+        rcases List.mem_cons.mp hpc with rfl | hpc
+        · show e.stopped = false
+          rw [e5]; exact hforce_in hin
+        · exact absurd hk (hne pc hpc)
+      removed := fun wa st hr => by
+        obtain ⟨h1, h2, h3⟩ := r.removed wa st hr
+        rw [hc.transferring, hc.canStop]
+        refine ⟨h1, h2, fun ht => ?_⟩
+        obtain ⟨h4, h5, _⟩ := h3 ht
+        refine ⟨h4, h5, fun pc hpc hk => ?_⟩
+        rcases List.mem_cons.mp hpc with rfl | hpc
+        · have hst : e.stopped = st := by rw [e5, hforce_out h1, h5]
+          constructor
+          · intro h0; show e.stopped = false; rw [hst, h0]
+          · intro h0; right; show e.stopped = true; rw [hst, h0]
+        · exact absurd hk (hne pc hpc)
+      full := fun hr => by
+        have h1 := r.full hr
+        rw [hc.transferring, hc.nPk, htr]
+        rw [htr, hsent] at h1
+        simp only [true_and] at h1 ⊢
+        rw [if_neg (by omega)] at h1
+        show (if f.nPk = (LM.run c.key s.log).sent + 1 then _ else _) = _ + (if (LM.run c.key s.log).sent + 1 = f.nPk then 1 else 0)
+        rw [hsent, h1]
+        by_cases hl : f.nPk = c.enc.sent + 1
+        · rw [if_pos hl, if_pos hl.symm]
+        · rw [if_neg hl, if_neg (fun e => hl e.symm)]
+      carousel := fun hcar => by rw [hc.carousel] at hcar; exact r.carousel hcar
+      after0 := fun hr => by
+        have hr' : (LM.run c.key s.log).removed = none := hr
+        show (if (LM.run c.key s.log).removed.isSome then _ else _) = 0
+        rw [hr']; exact r.after0 hr'
+      transFiles := fun ht hr => by rw [hc.transferring] at ht; exact r.transFiles ht hr }
+  · -- the packet passes the checks
+    intro _
+    refine ⟨by rw [r.active]; exact htr, by rw [e2, hsent], ⟨a, ha1, by rw [npk_eq ha2, hsent]; exact e3'⟩, ?_⟩
+    intro wa st hr
+    obtain ⟨h1, _, h3⟩ := r.removed wa st hr
+    obtain ⟨h4, h5, h6⟩ := h3 htr
+    refine ⟨h4, fun hst => ?_⟩
+    obtain ⟨_, h7⟩ := h6 (prio, c) List.mem_cons_self rfl
+    rcases h7 hst with ⟨_, h8⟩ | h8
+    · refine ⟨h8, e6 ?_⟩
+      rw [hforce_out h1, ← h5]; exact hst
+    · rw [e1] at h8; cases h8
+
+theorem LifeInv.ofDone' {s s' : State} {L : Held} {prio : Nat} {c : Cur} {f : FileDesc} {now : Nat} {e : Enc} {force : Bool}
+    (hw : Wf s ((prio, c) :: L)) (h : LifeInv s ((prio, c) :: L)) (hf : getF s.objs c.key = some f)
+    (he : encRead f.nSym c.enc force = (none, e))
+    (hobjs : s'.objs = updF s.objs c.key (fun g => transferDoneInfo g now))
+    (hlog : s'.log = Ev.stop now c.key :: s.log)
+    (hf1 : ∀ t, t ∈ s'.files → t ∈ s.files) (hf2 : ∀ t, t ≠ c.key → t ∈ s.files → t ∈ s'.files)
+    (hq1 : ∀ t, t ∈ s.queue → t ∈ s'.queue) (hq2 : c.key ∈ s'.files → c.key ∈ s'.queue)
+    (hexp : c.key ∈ s'.files → isExpired (transferDoneInfo f now) = false)
+    (hgone : c.key ∈ s.files → c.key ∉ s'.files → isExpired (transferDoneInfo f now) = true)
+    (hnd : s'.files.Nodup) : LifeInv s' L := by
+  have e3 := encRead_none he
+  obtain ⟨f0, hf0, htr, _⟩ := hw.heldObj (prio, c) List.mem_cons_self
+  rw [hf] at hf0; cases hf0
+  have r := h.rel c.key f hf
+  obtain ⟨a, ha1, ha2, ha3, ha4, ha5⟩ := r.args
+  obtain ⟨hsent, hsle⟩ := r.sent (prio, c) List.mem_cons_self rfl
+  have hnd' := hw.heldNodup
+  simp only [List.map_cons, List.nodup_cons] at hnd'
+  have hne : ∀ pc ∈ L, pc.2.key ≠ c.key := fun pc hpc e => hnd'.1 (List.mem_map.mpr ⟨pc, hpc, e⟩)
+  have hkey : ∀ g : FileDesc, (transferDoneInfo g now).key = g.key := fun _ => rfl
+  have hget : ∀ k, getF s'.objs k =
+      if k = c.key then (getF s.objs k).map (fun g => transferDoneInfo g now) else getF s.objs k := by
+    intro k; rw [hobjs]; exact getF_updF _ _ _ _ hkey
+  have hself : getF s'.objs c.key = some (transferDoneInfo f now) := by
+    rw [hget, if_pos rfl, hf]; rfl
+  have hrun : LM.run c.key s'.log =
+      { LM.run c.key s.log with active := false, stops := (LM.run c.key s.log).stops + 1 } := by
+    rw [hlog]
+    show LM.step c.key (LM.run c.key s.log) (Ev.stop now c.key) = _
+    simp [LM.step]
+  -- an unforced transfer ends with all packets out
+  have hfullsent : ((LM.run c.key s.log).removed = none ∨ ∃ wa, (LM.run c.key s.log).removed = some (wa, false)) →
+      c.enc.sent = f.nPk := by
+    intro hr
+    have hns : c.enc.stopped = false := by
+      rcases hr with hr | ⟨wa, hr⟩
+      · exact r.notStopped (prio, c) List.mem_cons_self rfl (r.transFiles htr hr)
+      · obtain ⟨_, _, h3⟩ := r.removed wa false hr
+        obtain ⟨_, _, h6⟩ := h3 htr
+        exact (h6 (prio, c) List.mem_cons_self rfl).1 rfl
+    rcases e3 with e3 | e3
+    · rw [hns] at e3; cases e3
+    · have h1 : f.nPk ≤ c.enc.sent := e3
+      have h2 : c.enc.sent ≤ f.nPk := hsle
+      omega
+  refine h.about (e := Ev.stop now c.key) (t0 := c.key) rfl hlog
+    (fun toi hn => by rw [hget, if_neg hn])
+    (fun toi hn => ⟨hf1 toi, hf2 toi hn⟩) (fun toi _ hq => hq1 toi hq)
+    (fun pc' hpc' _ => List.mem_cons_of_mem _ hpc')
+    hnd ?_ (fun hn => by rw [hself] at hn; cases hn) ?_ (fun _ => ⟨_, hself⟩)
+  · intro f' hf'
+    rw [hself] at hf'; cases hf'
+    rw [hrun]
+    exact
+    { args := ⟨a, ha1, ha2, ha3, ha4, ha5⟩
+      active := rfl
+      stops := by show (LM.run c.key s.log).stops + 1 = f.info.total + 1; rw [r.stops]
+      sent := fun pc hpc hk => absurd hk (hne pc hpc)
+      inFiles := fun hin => ⟨(r.inFiles (hf1 _ hin)).1, Or.inl (hq2 hin)⟩
+      count := fun hcar => by
+        have hcar' : f.carousel = none := hcar
+        obtain ⟨h1, h2, h3⟩ := r.count hcar'
+        have h3' := h3 (Or.inr htr)
+        refine ⟨by show f.info.count + 1 = f.info.total + 1; rw [h1], ?_, ?_⟩
+        · show f.info.total + 1 ≤ burstF f; omega
+        · intro hin
+          rcases hin with hin | hin
+          · have hx := hexp hin
+            unfold isExpired at hx
+            have hx' : (if f.maxCount > f.info.count + 1 then false else f.carousel.isNone) = false := hx
+            rw [hcar'] at hx'
+            by_cases hm : f.maxCount > f.info.count + 1
+            · show f.info.total + 1 < burstF f
+              unfold burstF; rw [if_neg (by omega)]; omega
+            · rw [if_neg hm] at hx'; simp at hx'
+          · cases hin
+      notStopped := fun pc hpc hk => absurd hk (hne pc hpc)
+      removed := fun wa st hr => by
+        obtain ⟨h1, h2, _⟩ := r.removed wa st hr
+        exact ⟨fun hin => h1 (hf1 _ hin), fun _ => rfl, fun ht => by cases ht⟩
+      full := fun hr => by
+        have h1 := r.full hr
+        rw [htr, hsent, hfullsent hr] at h1
+        simp only [and_self, if_true] at h1
+        show (LM.run c.key s.log).full = (LM.run c.key s.log).stops + 1 + (if false = true ∧ _ then 1 else 0)
+        rw [h1]; simp
+      carousel := fun hcar => by
+        have hcar' : f.carousel.isSome = true := hcar
+        rcases r.carousel hcar' with h1 | h1
+        · by_cases hin : c.key ∈ s'.files
+          · exact Or.inl hin
+          · have hx := hgone h1 hin
+            unfold isExpired at hx
+            have hx' : (if f.maxCount > f.info.count + 1 then false else f.carousel.isNone) = true := hx
+            split at hx'
+            · cases hx'
+            · cases hc : f.carousel with
+              | none => rw [hc] at hcar'; cases hcar'
+              | some x => rw [hc] at hx'; cases hx'
+        · exact Or.inr h1
+      after0 := r.after0
+      transFiles := fun ht => by cases ht }
+  · intro _
+    refine ⟨by rw [r.active]; exact htr, a, ha1, ?_⟩
+    rw [npk_eq ha2, hsent]
+    cases hr : (LM.run c.key s.log).removed with
+    | none => exact Or.inl (hfullsent (Or.inl hr))
+    | some p =>
+      obtain ⟨wa, st⟩ := p
+      obtain ⟨_, _, h3⟩ := r.removed wa st hr
+      obtain ⟨h4, _, _⟩ := h3 htr
+      subst h4
+      cases st with
+      | false => exact Or.inl (hfullsent (Or.inr ⟨true, hr⟩))
+      | true => exact Or.inr rfl
+
+theorem LifeInv.ofDone {s : State} {L : Held} {prio : Nat} {c : Cur} {f : FileDesc} {now : Nat} {e : Enc} {force : Bool}
+    (hw : Wf s ((prio, c) :: L)) (h : LifeInv s ((prio, c) :: L)) (hf : getF s.objs c.key = some f)
+    (he : encRead f.nSym c.enc force = (none, e)) : LifeInv (transferDoneFile s c.key now) L := by
+  have hkey : ∀ g : FileDesc, (transferDoneInfo g now).key = g.key := fun _ => rfl
+  have hself : getF (doneStep s c.key now).objs c.key = some (transferDoneInfo f now) := by
+    show getF (updF s.objs c.key _) c.key = _
+    rw [getF_updF _ _ _ _ hkey, if_pos rfl, hf]; rfl
+  rw [transferDoneFile_eq]
+  split
+  · rename_i hcont
+    have hout : c.key ∉ s.files := by simpa using hcont
+    exact LifeInv.ofDone' hw h hf he rfl rfl (fun t ht => ht) (fun t _ ht => ht) (fun t ht => ht)
+      (fun hin => absurd hin hout) (fun hin => absurd hin hout) (fun hin => absurd hin hout) h.filesNodup
+  · rename_i hcont
+    have hin : c.key ∈ s.files := by simpa using hcont
+    rw [hself]
+    simp only []
+    split
+    · rename_i hx
+      exact LifeInv.ofDone' hw h hf he rfl rfl (fun t ht => ht) (fun t _ ht => ht)
+        (fun t ht => List.mem_append_left _ ht) (fun _ => List.mem_append_right _ (by simp))
+        (fun _ => by simpa using hx) (fun _ hout => absurd hin hout) h.filesNodup
+    · rename_i hx
+      exact LifeInv.ofDone' hw h hf he rfl rfl (fun t ht => List.mem_of_mem_erase ht)
+        (fun t hn ht => (List.mem_erase_of_ne hn).mpr ht) (fun t ht => ht)
+        (fun hin' => absurd hin' (by
+          have : c.key ∉ s.files.erase c.key := fun hm => ((h.filesNodup.mem_erase_iff).mp hm).1 rfl
+          exact this))
+        (fun hin' => absurd hin' (by
+          have : c.key ∉ s.files.erase c.key := fun hm => ((h.filesNodup.mem_erase_iff).mp hm).1 rfl
+          exact this))
+        (fun _ _ => by simpa using hx) (h.filesNodup.erase _)
+
+theorem lrun_failed_add (t toi : Nat) (a : AddArgs) (l : List Ev) :
+    LM.run t (Ev.opAdd toi a false :: l) = LM.run t l := by
+  show LM.step t _ _ = _; simp [LM.step]
+
+theorem lrun_failed_remove (t toi : Nat) (l : List Ev) :
+    LM.run t (Ev.opRemove toi false :: l) = LM.run t l := by
+  show LM.step t _ _ = _; simp [LM.step]
+
+theorem reset_core (f : FileDesc) (ts : Option Nat) : Core (resetLastTransfer f ts) f :=
+  ⟨rfl, rfl, rfl, rfl, rfl, rfl, rfl⟩
+
+theorem LifeInv.ofAdd {s : State} {L : Held} (a : AddArgs) (hw : Wf s L) (h : LifeInv s L) :
+    LifeInv (addObject s a).1 L := by
+  have hfail : LifeInv (emit { s with nextToi := s.nextToi + 1 } (Ev.opAdd s.nextToi a false)) L :=
+    h.of_same (fun t => lrun_failed_add t _ a _) (fun t => ⟨h.checked t, trivial⟩) (CoreRel.refl rfl) rfl rfl
+      (fun pc hpc => hpc)
+  unfold addObject
+  simp only []
+  split
+  · exact hfail
+  · split
+    · exact hfail
+    · have hnone : getF s.objs s.nextToi = none :=
+        getF_none_of_keys (fun f hf => Nat.ne_of_lt (hw.objKeys f hf).2.2)
+      have hnf : s.nextToi ∉ s.files := fun hin => Nat.lt_irrefl _ (hw.filesKeys _ hin)
+      have hm := h.unknown s.nextToi hnone
+      have hnoheld : ∀ pc ∈ L, pc.2.key ≠ s.nextToi := by
+        intro pc hpc e
+        obtain ⟨g, hg, _, _⟩ := hw.heldObj pc hpc
+        rw [e, hnone] at hg; cases hg
+      refine h.about (e := Ev.opAdd s.nextToi a true) (t0 := s.nextToi) rfl rfl ?_ ?_
+        (fun toi _ hq => List.mem_append_left _ hq) (fun pc hpc _ => hpc) ?_ ?_ ?_ trivial ?_
+      · intro toi hn
+        show getF (s.objs ++ [_]) toi = _
+        cases hg : getF s.objs toi with
+        | some g => exact getF_append_some hg
+        | none =>
+          rw [getF_append_none hg, getF_single]
+          rw [if_neg (fun e => hn e.symm)]
+      · intro toi hn
+        show toi ∈ s.files ++ [s.nextToi] ↔ _
+        simp [hn]
+      · show (s.files ++ [s.nextToi]).Nodup
+        refine List.nodup_append.mpr ⟨h.filesNodup, by simp, ?_⟩
+        intro x hx y hy
+        simp only [List.mem_singleton] at hy; subst hy
+        intro e; exact hnf (e ▸ hx)
+      · intro f' hf'
+        have hg : getF (s.objs ++ [_]) s.nextToi = some f' := hf'
+        rw [getF_append_none hnone, getF_single] at hg
+        simp only [if_true] at hg
+        cases hg
+        have hrun : LM.run s.nextToi (Ev.opAdd s.nextToi a true :: s.log) = { args := some a } := by
+          show LM.step s.nextToi (LM.run s.nextToi s.log) _ = _
+          rw [hm]; simp [LM.step]
+        show ObjRel _ L s.nextToi _ (LM.run s.nextToi (Ev.opAdd s.nextToi a true :: s.log))
+        rw [hrun]
+        exact
+        { args := ⟨a, rfl, rfl, rfl, rfl, rfl⟩
+          active := rfl
+          stops := rfl
+          sent := fun pc hpc hk => absurd hk (hnoheld pc hpc)
+          inFiles := fun _ => ⟨rfl, Or.inl (List.mem_append_right _ (by simp))⟩
+          count := fun _ => ⟨rfl, Nat.zero_le _, fun _ => by
+            show 0 < burstF _
+            unfold burstF; split <;> omega⟩
+          notStopped := fun pc hpc hk => absurd hk (hnoheld pc hpc)
+          removed := fun wa st hr => by cases hr
+          full := fun _ => rfl
+          carousel := fun _ => Or.inl (List.mem_append_right _ (by simp))
+          after0 := fun _ => rfl
+          transFiles := fun ht => by cases ht }
+      · intro hn
+        have hg : getF (s.objs ++ [_]) s.nextToi = none := hn
+        rw [getF_append_none hnone, getF_single] at hg
+        simp at hg
+      · intro _
+        have hg : ∀ fd : FileDesc, fd.key = s.nextToi → getF (s.objs ++ [fd]) s.nextToi = some fd := by
+          intro fd hk; rw [getF_append_none hnone, getF_single, if_pos hk]
+        exact ⟨_, hg _ rfl⟩
+
+theorem LifeInv.ofRemove {s : State} {L : Held} (t : Nat) (h : LifeInv s L) :
+    LifeInv (removeObject s t).1 L := by
+  unfold removeObject
+  split
+  · exact h.of_same (fun t' => lrun_failed_remove t' t _) (fun t' => ⟨h.checked t', trivial⟩) (CoreRel.refl rfl)
+      rfl rfl (fun pc hpc => hpc)
+  · rename_i hcont
+    have hin : t ∈ s.files := by
+      have : s.files.contains t = true := by simpa using hcont
+      simpa using this
+    obtain ⟨f, hf⟩ := h.filesObj t hin
+    have r := h.rel t f hf
+    obtain ⟨a, ha1, ha2, ha3, ha4, ha5⟩ := r.args
+    have hrem := (r.inFiles hin).1
+    have hnin : t ∉ s.files.erase t := fun hm => ((h.filesNodup.mem_erase_iff).mp hm).1 rfl
+    have hstop : stoppable (LM.run t s.log) = canStop f := by
+      unfold stoppable canStop; rw [ha1, r.stops]; simp only []; rw [ha5]
+    have hrun : LM.run t (Ev.opRemove t true :: s.log) =
+        { LM.run t s.log with removed := some ((LM.run t s.log).active, stoppable (LM.run t s.log)) } := by
+      show LM.step t (LM.run t s.log) _ = _; simp [LM.step]
+    refine h.about (e := Ev.opRemove t true) (t0 := t) rfl rfl (fun _ _ => rfl)
+      (fun toi hn => ⟨fun hm => List.mem_of_mem_erase hm, fun hm => (List.mem_erase_of_ne hn).mpr hm⟩)
+      (fun toi hn hq => List.mem_filter.mpr ⟨hq, by simpa using hn⟩) (fun pc hpc _ => hpc)
+      (h.filesNodup.erase _) ?_ (fun hn => by
+        have : getF s.objs t = none := hn
+        rw [hf] at this; cases this) trivial (fun hm => absurd hm hnin)
+    intro f' hf'
+    have : getF s.objs t = some f' := hf'
+    rw [hf] at this; cases this
+    show ObjRel _ L t f (LM.run t (Ev.opRemove t true :: s.log))
+    rw [hrun]
+    exact
+    { args := ⟨a, ha1, ha2, ha3, ha4, ha5⟩
+      active := r.active
+      stops := r.stops
+      sent := r.sent
+      inFiles := fun hm => absurd hm hnin
+      count := fun hcar => by
+        obtain ⟨h1, h2, h3⟩ := r.count hcar
+        refine ⟨h1, h2, fun hx => ?_⟩
+        rcases hx with hx | hx
+        · exact absurd hx hnin
+        · exact h3 (Or.inr hx)
+      notStopped := fun pc hpc hk hm => absurd hm hnin
+      removed := fun wa st hr => by
+        simp only [Option.some.injEq, Prod.mk.injEq] at hr
+        obtain ⟨h1, h2⟩ := hr
+        refine ⟨hnin, fun h0 => by rw [← r.active, h1, h0], fun ht => ?_⟩
+        refine ⟨by rw [← h1, r.active, ht], by rw [← h2, hstop], fun pc hpc hk => ?_⟩
+        have hns := r.notStopped pc hpc hk hin
+        exact ⟨fun _ => hns, fun _ => Or.inl ⟨hns, r.after0 hrem⟩⟩
+      full := fun _ => r.full (Or.inl hrem)
+      carousel := fun _ => Or.inr rfl
+      after0 := fun hr => by cases hr
+      transFiles := fun _ hr => by cases hr }
+
+theorem LifeInv.closed : Closed Wf LifeInv where
+  perm := fun _ _ _ p h =>
+    h.of_same (fun _ => rfl) h.checked (CoreRel.refl rfl) rfl rfl (fun pc hpc => p.mem_iff.mpr hpc)
+  leaveFiles := fun _ _ _ h =>
+    h.of_same (fun _ => rfl) h.checked (CoreRel.refl rfl) rfl rfl (fun pc hpc => hpc)
+  enterFiles := fun _ _ _ _ h _ _ =>
+    h.of_same (fun _ => rfl) h.checked (CoreRel.refl rfl) rfl rfl (fun pc hpc => hpc)
+  emitRead := fun _ _ _ _ h _ => h.ofEmit trivial
+  emitIdle := fun _ _ _ _ h _ => h.ofEmit trivial
+  publish := fun _ _ now _ h => h.ofPublish now
+  fdtAdvance := fun _ _ now _ h _ _ => h.ofFdtAdvance now
+  fileStart := fun _ _ _ _ tk _ hw h _ hfn => h.ofFileStart tk hw hfn
+  pkt := fun _ _ _ _ _ _ _ _ _ hw h _ hf _ _ he => h.ofPkt hw hf he
+  done := fun _ _ _ _ _ _ _ hw h _ hf _ _ he => h.ofDone hw hf he
+  fdtPkt := fun _ _ c f now idx _ e _ h _ _ _ _ _ => h.ofFdtPkt c e f.fdtId now idx
+  fdtDone := fun _ _ c _ now _ _ h _ _ _ _ _ => h.ofFdtDone c.key now
+
+theorem LifeInv.closedOps : ClosedOps Wf LifeInv where
+  add := fun _ _ a hw h => h.ofAdd a hw
+  remove := fun _ _ t _ h => h.ofRemove t
+  trigger := fun s _ t ts _ h => by
+    unfold triggerTransferAt
+    split
+    · exact h.ofEmit trivial
+    · split
+      · exact h.ofEmit trivial
+      · exact h.neutral (e := Ev.opTrigger t ts true) trivial rfl
+          (CoreRel.updF t _ rfl (fun _ => rfl) (fun f => reset_core f ts)) rfl rfl (fun pc hpc => hpc)
+  emitPublish := fun _ _ _ _ h => h.ofEmit trivial
+  complete := fun _ _ _ h =>
+    h.of_same (fun _ => rfl) h.checked (CoreRel.refl rfl) rfl rfl (fun pc hpc => hpc)
+
+theorem LifeInv.init (cfg : Cfg) (tbl : List Nat) : LifeInv (Sched.init cfg tbl) [] where
+  rel := fun toi f hf => by simp [Sched.init, getF] at hf
+  unknown := fun _ _ => rfl
+  checked := fun _ => trivial
+  filesObj := fun t ht => by simp [Sched.init] at ht
+  filesNodup := by simp [Sched.init]
+
+/-- `Wf ∧ LifeInv` after every operation history -/
+theorem life_run (cfg : Cfg) (tbl : List Nat) (ops : List Op) :
+    And2 Wf LifeInv (run (Sched.init cfg tbl) ops) (heldOf (run (Sched.init cfg tbl) ops)) :=
+  inv_run (Closed.and Wf.closed LifeInv.closed) (ClosedOps.and Wf.closedOps LifeInv.closedOps) cfg tbl
+    ⟨Wf.init cfg tbl, LifeInv.init cfg tbl⟩ ops
+
+/-- the check of an event somewhere in a checked trace, w.r.t. the monitor state of its past -/
+theorem checked_at {toi : Nat} : ∀ (post : List Ev) (e : Ev) (pre : List Ev),
+    Checked toi (post ++ e :: pre) → LM.check toi (LM.run toi pre) e := by
+  intro post
+  induction post with
+  | nil => intro e pre h; exact h.2
+  | cons x r ih => intro e pre h; exact ih e pre h.1
+
+
 end Flute.Sched
